@@ -62,6 +62,7 @@ func (c *Conn) WriteFile(opcode Opcode, payload io.Reader) error {
 }
 
 func (c *Conn) doWriteFile(opcode Opcode, payload io.Reader) error {
+	verifSched("f.lock", c)
 	c.mu.Lock()
 	defer c.mu.Unlock()
 
@@ -81,6 +82,7 @@ func (c *Conn) doWriteFile(opcode Opcode, payload io.Reader) error {
 		if c.pd.Enabled && index == 0 {
 			frame.Bytes()[0] |= uint8(64)
 		}
+		verifSched("f.check", c)
 		if c.isClosed() {
 			return ErrConnClosed
 		}
